@@ -187,8 +187,13 @@ impl Lexer {
                                 input_part.get(self.char_index as usize + 1),
                                 Some('(') | Some('{')
                             );
+                            // (`size* 2`: the right operand is the next word; not right after a
+                            // comparison, where `2018*` is a pattern)
+                            let operand_in_next_word = rest.is_empty()
+                                && !self.after_operator
+                                && matches!(input_part.get(self.char_index as usize + 1), None | Some(' '));
                             let maybe_expr = looks_like_expression(&s)
-                                && (bracket_follows || looks_like_expression(rest_expr));
+                                && (bracket_follows || operand_in_next_word || looks_like_expression(rest_expr));
                             if maybe_expr {
                                 break;
                             }
@@ -369,23 +374,71 @@ static DATE_ALIKE_REGEX: LazyLock<Regex> = LazyLock::new(|| {
 });
 
 fn looks_like_expression(s: &str) -> bool {
-    // operands separated by operators and brackets; an operand is a number or the name of a
-    // column or function (names may contain underscores: `line_count`)
-    let mut operands = s
-        .split(|c: char| matches!(c, '+' | '-' | '*' | '/' | '%' | '(' | ')' | '{' | '}' | ' '))
-        .filter(|operand| !operand.is_empty())
-        .peekable();
-
-    if operands.peek().is_none() {
-        return false;
-    }
-
-    operands.all(|operand| {
+    // operands and operators in turn (a sign may follow an operator: `2*-3`); an operand is a
+    // number, a size literal or the name of a column or function (names may contain
+    // underscores: `line_count`). A text that begins with `*`, ends with an operator or has two
+    // operators in a row (`*2024*05*`, `05*`, `2024-05-*`) is a pattern, not an expression.
+    let is_operand = |operand: &str| {
         let is_number = operand.chars().all(|c| c.is_ascii_digit() || c == '.')
             && operand.chars().filter(|c| *c == '.').count() <= 1
             && operand.chars().any(|c| c.is_ascii_digit());
-        is_number || Field::from_str(operand).is_ok() || Function::from_str(operand).is_ok()
-    })
+        is_number
+            || Field::from_str(operand).is_ok()
+            || Function::from_str(operand).is_ok()
+            || (operand.starts_with(|c: char| c.is_ascii_digit() || c == '.')
+                && crate::util::parse_filesize_exact(operand).is_some())
+    };
+
+    let mut operand = String::new();
+    let mut operands = 0;
+    let mut operand_expected = true;
+    let mut sign_seen = false;
+
+    for c in s.chars() {
+        match c {
+            '+' | '-' | '*' | '/' | '%' => {
+                if !operand.is_empty() {
+                    if !is_operand(&operand) {
+                        return false;
+                    }
+                    operand.clear();
+                    operands += 1;
+                    operand_expected = false;
+                }
+                if operand_expected {
+                    // only a sign may stand where an operand is expected, and only one
+                    if sign_seen || !matches!(c, '+' | '-') {
+                        return false;
+                    }
+                    sign_seen = true;
+                } else {
+                    operand_expected = true;
+                    sign_seen = false;
+                }
+            }
+            '(' | ')' | '{' | '}' | ' ' => {
+                if !operand.is_empty() {
+                    if !is_operand(&operand) {
+                        return false;
+                    }
+                    operand.clear();
+                    operands += 1;
+                    operand_expected = false;
+                }
+            }
+            _ => operand.push(c),
+        }
+    }
+
+    if !operand.is_empty() {
+        if !is_operand(&operand) {
+            return false;
+        }
+        operands += 1;
+        operand_expected = false;
+    }
+
+    operands > 0 && !operand_expected
 }
 
 /// After `YYYY-` a date goes on with month and day, after `YYYY-MM-` with a day.
